@@ -595,6 +595,16 @@ func c14GenB(r *core.Rng) c14Case {
 			yang.SortSections(b)
 		}
 	}
+	// an augment inside a uses that carries an if-feature (or a status) and holds a uses of its own: everything it
+	// introduces, also through that uses, is there iff the feature is on
+	if m0 := ms.Mods[0]; withGroupings && m0.FindArg("feature", "f0") != nil {
+		str := func(n string) *yang.Stmt { return yang.S("leaf", n, yang.S("type", "string")) }
+		m0.Add(yang.S("grouping", "ag-g", yang.S("container", "ag-top", str("base"))),
+			yang.S("grouping", "ag-h", str("from-grouping"), yang.S("container", "box", str("in-box"))),
+			yang.S("container", "ag-use", yang.S("uses", "ag-g", yang.S("augment", "ag-top", yang.S("if-feature", "f0"), str("direct"), yang.S("uses", "ag-h")))),
+			yang.S("container", "ag-use2", yang.S("status", "deprecated"), yang.S("uses", "ag-g", yang.S("augment", "ag-top", yang.S("status", "deprecated"), str("direct2"), yang.S("uses", "ag-h")))))
+		yang.SortSections(m0)
+	}
 	// an rpc and a notification that depend on a feature
 	if m0 := ms.Mods[0]; m0.FindArg("feature", "f0") != nil {
 		m0.Add(yang.S("rpc", "feat-rpc", yang.S("if-feature", "f0"), c14Input(yang.S("leaf", "x", yang.S("type", "string")))),
